@@ -132,6 +132,63 @@ class Tr:
                 f"  if negb add_to_test then {dep}\n  else match v with\n" + "\n".join(rows) + "\n       end.\n")
 
 
+GUARD_ATOMS = {"type_info.is_abstract": "is_abstract",
+               "type_info.raw_type in COLLECTIONS": "in_collections",
+               "type_info.raw_type in PRIMITIVES": "in_primitives"}
+BUILTIN_SETS = {"PRIMITIVES": "OrderedSet([int, str, bytes, bool, float, complex])",
+                "COLLECTIONS": "OrderedSet([list, set, tuple, dict])"}
+
+
+def ctor_guard(fns, path) -> str:
+    """The guard of __analyse_class that withholds the constructor of a class:
+        if not (<atom> or <atom> ...):  test_cluster.add_generator(generic); if add_to_test: ...under_test...
+    translated over the three atoms it is written with; PRIMITIVES / COLLECTIONS are pinned."""
+    import os
+    if "__analyse_class" not in fns:
+        raise Untranslatable("function __analyse_class not found")
+    tu = os.path.join(os.path.dirname(os.path.dirname(str(path))), "utils", "type_utils.py")
+    for st in ast.parse(open(tu).read()).body:
+        if isinstance(st, ast.Assign) and len(st.targets) == 1 and isinstance(st.targets[0], ast.Name) \
+                and st.targets[0].id in BUILTIN_SETS and ast.unparse(st.value) != BUILTIN_SETS[st.targets[0].id]:
+            raise Untranslatable(f"{st.targets[0].id} changed: {ast.unparse(st.value)}")
+    guards = []
+    for node in ast.walk(fns["__analyse_class"]):
+        if isinstance(node, ast.If) and any(
+                isinstance(c, ast.Call) and ast.unparse(c.func) == "test_cluster.add_accessible_object_under_test"
+                for b in node.body for c in ast.walk(b)) and any(
+                isinstance(c, ast.Call) and ast.unparse(c.func) == "test_cluster.add_generator" for b in node.body for c in ast.walk(b)):
+            guards.append(node)
+    if len(guards) != 1:
+        raise Untranslatable(f"__analyse_class: expected one guard around add_generator/add_accessible_object_under_test, found {len(guards)}")
+    g = guards[0]
+    if g.orelse or not (isinstance(g.test, ast.UnaryOp) and isinstance(g.test.op, ast.Not)):
+        raise Untranslatable("__analyse_class: constructor guard is not `if not (...)`")
+
+    def tr(e):
+        if isinstance(e, ast.BoolOp):
+            op = "orb" if isinstance(e.op, ast.Or) else "andb"
+            parts = [tr(v) for v in e.values]
+            out = parts[0]
+            for q in parts[1:]:
+                out = f"({op} {out} {q})"
+            return out
+        if isinstance(e, ast.UnaryOp) and isinstance(e.op, ast.Not):
+            return f"(negb {tr(e.operand)})"
+        txt = ast.unparse(e)
+        if txt in GUARD_ATOMS:
+            return GUARD_ATOMS[txt]
+        raise Untranslatable("constructor guard outside the fragment: " + txt)
+    inner = g.body
+    ok = (len(inner) == 2 and ast.unparse(inner[0]) == "test_cluster.add_generator(generic)"
+          and isinstance(inner[1], ast.If) and ast.unparse(inner[1].test) == "add_to_test" and not inner[1].orelse
+          and len(inner[1].body) == 1
+          and ast.unparse(inner[1].body[0]) == "test_cluster.add_accessible_object_under_test(generic, method_data)")
+    if not ok:
+        raise Untranslatable("__analyse_class: body of the constructor guard changed")
+    return ("Definition gen_ctor_withheld (is_abstract in_collections in_primitives : bool) : bool :=\n"
+            f"  {tr(g.test.operand)}.\n")
+
+
 def translate(path) -> str:
     tree = ast.parse(open(path).read())
     fns = {st.name: st for st in tree.body if isinstance(st, ast.FunctionDef)}
@@ -143,6 +200,7 @@ def translate(path) -> str:
         if t not in fns:
             raise Untranslatable(f"function {t} not found")
         out.append(tr.skip(fns[t]) if t == "__should_skip_by_visibility" else tr.simple(fns[t]))
+    out.append(ctor_guard(fns, path))
     out += [
         "(* equality with the hand model, as a propositional tautology over the atomic string tests (robust",
         "   against reordering of the disjuncts/conjuncts in the source) *)",
@@ -161,6 +219,8 @@ def translate(path) -> str:
         "Proof. intro n. decide_eq. Qed.",
         "Lemma gen_should_skip_ok : forall n a v, gen_should_skip n a v = C27.should_skip n a v.",
         "Proof. intros n a v. destruct v; decide_eq. Qed.",
+        "Lemma gen_ctor_withheld_ok : forall a c p, gen_ctor_withheld a c p = C27.ctor_withheld a c p.",
+        "Proof. intros a c p. destruct a, c, p; reflexivity. Qed.",
     ]
     return "\n".join(out) + "\n"
 
